@@ -41,6 +41,7 @@ func init() {
 		Run:        c07Run,
 		Replay:     c07Replay,
 		NeedRepro:  true,
+		StuckAfter: 60 * time.Second,
 		Isolated:   true,
 		WorkerJobs: 20,
 	})
@@ -437,6 +438,7 @@ func c07RunBatch(seqs [][]c07Frame, r *engine.Result, count bool) (int, *c07Fail
 		c.close()
 	}()
 	for k, sq := range seqs {
+		engine.Tick()
 		if os.Getenv("VERIF_C07_TRACE") != "" {
 			fmt.Fprintf(os.Stderr, "seq %d:%s\n", k, c07Describe(sq))
 		}
@@ -539,6 +541,7 @@ func c07FdBased() []c07Fail {
 		for _, fill := range []byte{0x00, 0xff, 0x45} {
 			frame := bytes.Repeat([]byte{fill}, l)
 			syscall.Write(fds[1], frame)
+			engine.Tick()
 			n++
 			if !answered(n) {
 				fails = append(fails, c07Fail{"fdbased-dispatch-stopped", fmt.Sprintf("after a %d-byte frame (fill %#02x) on the fd-based Ethernet endpoint the stack no longer answers echo requests: the dispatch loop has stopped", l, fill), []c07Frame{{Proto: 0, Data: frame}}})
